@@ -110,8 +110,6 @@ def run(res, tier, build_ok):
                                   "%s.unmarshall_datain exceeded %d traced lines on a %d-byte buffer (budget %d*len+%d)" % (name, budget, len(b), A, B),
                                   {"decoder": name, "args": kw, "buffer": bytes(b).hex()})
                     continue
-                if name == "reportpriority":
-                    continue      # no model (known finding F7 concerns C04, it terminates)
                 reqs.append((name, kw, b, st, val,
                              "unm %s %s E%s" % (name, hx(b), ",".join("%s=i%d" % kv for kv in kw.items()))))
     # the sense decoder
